@@ -360,6 +360,7 @@ class Machine:
         self.fields = fields
         self.regs = {acc: {} for acc in fields}
         self.written = {acc: set() for acc in fields}
+        self.recent = {acc: set() for acc in fields}  # fields written since the previous launch of that accelerator
         self.on_state = None  # callback(value, op, where)
 
     def reg(self, acc, f):
@@ -398,6 +399,7 @@ def machine_handlers(M: Machine):
         for n, v in op.iter_params():
             M.regs.setdefault(acc, {})[n] = I.get(v)
             M.written.setdefault(acc, set()).add(n)
+            M.recent.setdefault(acc, set()).add(n)
         I.set(op.out_state, Opaque("state", acc=acc))
         if M.on_state:
             M.on_state(op.out_state, op, "setup")
@@ -416,7 +418,8 @@ def machine_handlers(M: Machine):
                 in_loop = True
             p = p.parent_op()
         I.emit("launch", acc, M.snapshot(acc), vals, tuple(sorted(M.written.get(acc, ()))),
-               "launch_in_loop" if in_loop else "launch_outside_loop")
+               "launch_in_loop" if in_loop else "launch_outside_loop", tuple(sorted(M.recent.get(acc, ()))))
+        M.recent[acc] = set()
         I.set(op.token, Opaque("token", acc=acc))
 
     def h_await(I, op):
@@ -511,5 +514,8 @@ def compare_launch_traces(t1, t2, fields, oblige):
         written = set(e1[4])
         for f, v1, v2 in zip(names, e1[2], e2[2]):
             if f in written:
-                oblige("launch:register", irsym.term_eq(v1, v2), dict(launch=i, acc=acc, field=f, where=e1[5]))
+                # does the input program write this field between the previous launch and this one, or does the
+                # launch rely on a value left in the register earlier (e.g. because dedup removed the write)?
+                rel = "written_by_own_setup" if f in e1[6] else "relies_on_earlier_state"
+                oblige("launch:register", irsym.term_eq(v1, v2), dict(launch=i, acc=acc, field=f, where=e1[5], reliance=rel))
         oblige("launch:values", irsym.term_eq(e1[3], e2[3]), dict(launch=i, acc=acc))
